@@ -55,7 +55,9 @@ def dispatch_oracle(case, idx, out):
         elif t[0] == "attach_i" and r == "ok":
             guards[int(t[1])] = ("t", None)
         elif t[0] == "fill":
-            for k in range(int(r.split(":")[0])):
+            head = r.split(":")[0]
+            # while a failing case is shrunk an operation may have no answer (the harness stopped earlier): nothing was attached
+            for k in range(int(head) if head.isdigit() else 0):
                 guards[int(t[1]) + k] = ("t", None)
         elif t[0] == "drop_guard" and r == "ok":
             guards.pop(int(t[1]), None)
